@@ -50,6 +50,7 @@ SELFTEST_EVERY = 25
 COMBOS = [
     ("npy", "F32"), ("fits", "F32"), ("png", "RGBA"), ("npy", "F64"), ("fits", "F64"), ("npy", "RGBA"), ("png", "RGB"),
     ("npy", "RGB"), ("npy", "I16"), ("fits", "I16"), ("npy", "I32"), ("fits", "I32"), ("npy", "U8"), ("npy", "F16x3"), ("jpg", "RGB"),
+    ("png", "RGBmix"),      # a png pyramid whose leaves are a mixture of RGB and RGBA tiles
 ]
 FITS_COMBOS = [c for c in COMBOS if c[0] == "fits"]
 DTYPES = {"F32": np.float32, "F64": np.float64, "I16": np.int16, "I32": np.int32, "U8": np.uint8, "F16x3": np.float16}
@@ -64,6 +65,11 @@ def gen_leaf(rng, mode, style, const=None):
         # value range per leaf: mostly mixed sign, sometimes entirely negative / entirely positive / straddling zero tightly
         off = (0.2, 0.2, 1.5, 0.0, 0.5)[rng.randint(0, 5)] if style != 3 else 0.0
         arr = (rng.random_sample(shape) * scale - off * scale).astype(dt)
+        clip = rng.randint(0, 6)
+        if clip == 4:
+            arr = np.maximum(arr, 0)        # smallest value exactly 0.0
+        elif clip == 5:
+            arr = np.minimum(arr, 0)        # largest value exactly 0.0
         undefined = np.zeros((256, 256), dtype=bool)
         if style == 1:
             undefined = rng.random_sample((256, 256)) < 0.4
@@ -280,11 +286,14 @@ def run_core(ch, env, prop):
             const = None
             if fmt == "jpg":
                 const = (rng.randint(0, 256), rng.randint(0, 256), rng.randint(0, 256))
-            arr = gen_leaf(rng, mode, style, const)
+            leaf_mode = mode
+            if mode == "RGBmix":
+                leaf_mode = ("RGB", "RGBA")[rng.randint(0, 2)]
+            arr = gen_leaf(rng, leaf_mode, style, const)
             if arr is not None:
                 leaves[p] = arr
     if not leaves:
-        arr = gen_leaf(rng, mode, 0, (10, 200, 90) if fmt == "jpg" else None)
+        arr = gen_leaf(rng, "RGB" if mode == "RGBmix" else mode, 0, (10, 200, 90) if fmt == "jpg" else None)
         leaves[allpos[0]] = arr
     ref = reference_cascade(leaves, fmt, mode, start)
     maxabs = 0.0
